@@ -9,6 +9,9 @@ Tie (E1), five kinds of cases, every one executed on the real backends and compa
   traj   : CircuitTemplate.run on linear dyadic models (optional extrinsic input array) with every fixed-step solver the backend
            supports, vectorize on/off, inplace_vectorfield on/off
   hooks  : _process_idx / create_index_str / ComputeVar shift-once / roll / Fortran cshift rewrite called directly
+  vec    : (traj kind) two structural classes x 2-4 units with a dense edge block (matvec) and sparse edges (indexed assignment), compiled
+           vectorized for default/torch/jax and scalar for default/fortran; delayed variants (roll buffer) compared across backends only
+  pop    : PopulationTemplate + Connectivity, plain matrix (matvec) and coupling EdgeTemplate (wsum / broadcast_pre / broadcast_post)
   scipy  : (support, tolerance) adaptive solver on a stiff-ish nonlinear model: no backend may fail alone; values within rtol."""
 import json, os, math
 from fractions import Fraction as Fr
@@ -191,14 +194,25 @@ def impl_net(case):
     finally:
         pyr.reset_pyrates()
 
+OPN = {0: "lin", 1: "linb"}
+
 def build_lin(case):
     from pyrates import OperatorTemplate, NodeTemplate, CircuitTemplate
     eqs = ["x' = -a*x + g*v + inp", "v' = h*x - c*v"] if not case.get("stiff") else ["x' = -a*x + g*v + inp - x*x*x", "v' = h*x - c*v"]
-    op = OperatorTemplate(name="lin", path=None, equations=eqs,
-                          variables={"x": "output(0.0)", "v": "variable(0.0)", "a": 1.0, "g": 1.0, "h": 1.0, "c": 1.0, "inp": "input(0.0)"})
-    nodes = {f"n{j}": NodeTemplate(name=f"n{j}", path=None, operators={op: {k: float(Fr(nd[k])) for k in ("a", "g", "h", "c", "x", "v")}})
-             for j, nd in enumerate(case["nodes"])}
-    edges = [(f"n{s}/lin/x", f"n{t}/lin/inp", None, {"weight": float(Fr(w))}) for s, t, w in case["edges"]]
+    ops = {0: OperatorTemplate(name="lin", path=None, equations=eqs,
+                               variables={"x": "output(0.0)", "v": "variable(0.0)", "a": 1.0, "g": 1.0, "h": 1.0, "c": 1.0, "inp": "input(0.0)"}),
+           1: OperatorTemplate(name="linb", path=None, equations=["x' = -a*x + inp", "v' = h*x - c*v"],
+                               variables={"x": "output(0.0)", "v": "variable(0.0)", "a": 1.0, "h": 1.0, "c": 1.0, "inp": "input(0.0)"})}
+    nodes = {}
+    for j, nd in enumerate(case["nodes"]):
+        cl = nd.get("cls", 0)
+        keys = ("a", "g", "h", "c", "x", "v") if cl == 0 else ("a", "h", "c", "x", "v")
+        nodes[f"n{j}"] = NodeTemplate(name=f"n{j}", path=None, operators={ops[cl]: {k: float(Fr(nd[k])) for k in keys}})
+    on = lambda j: OPN[case["nodes"][j].get("cls", 0)]
+    edges = [(f"n{s}/{on(s)}/x", f"n{t}/{on(t)}/inp", None, {"weight": float(Fr(w))}) for s, t, w in case["edges"]]
+    if case.get("delay"):
+        s_, t_, w_, d_ = case["delay"]
+        edges.append((f"n{s_}/{on(s_)}/v", f"n{t_}/{on(t_)}/inp", None, {"weight": float(Fr(w_)), "delay": float(d_ * Fr(case["dt"]))}))
     return CircuitTemplate(name="net", path=None, nodes=nodes, edges=edges)
 
 def impl_traj(case):
@@ -210,16 +224,59 @@ def impl_traj(case):
         dt = float(Fr(case["dt"])); T = case["steps"] * dt; dts = case["ss"] * dt
         outputs = {}
         for j in range(len(case["nodes"])):
-            outputs[f"x{j}"] = f"n{j}/lin/x"; outputs[f"v{j}"] = f"n{j}/lin/v"
-        inputs = {"n0/lin/inp": np.array([float(Fr(u)) for u in case["u"]])} if case["u"] else None
+            o = OPN[case["nodes"][j].get("cls", 0)]
+            outputs[f"x{j}"] = f"n{j}/{o}/x"; outputs[f"v{j}"] = f"n{j}/{o}/v"
+        inputs = {f"n0/{OPN[case['nodes'][0].get('cls', 0)]}/inp": np.array([float(Fr(u)) for u in case["u"]])} if case["u"] else None
         kw = dict(case.get("kwargs", {}))
-        res = net.run(T, dt, sampling_step_size=dts, solver=case["solver"], backend=case["backend"], vectorize=case["vectorize"],
-                      inputs=inputs, outputs=outputs, float_precision=case["precision"], in_place=False, file_name=_fname("t"),
-                      inplace_vectorfield=case["ipv"], clear=True, verbose=False, **kw)
+        try:
+            res = net.run(T, dt, sampling_step_size=dts, solver=case["solver"], backend=case["backend"], vectorize=case["vectorize"],
+                          inputs=inputs, outputs=outputs, float_precision=case["precision"], in_place=False, file_name=_fname("t"),
+                          inplace_vectorfield=case["ipv"], clear=True, verbose=False, **kw)
+        except NotImplementedError as e:
+            return dict(raised="NotImplementedError", msg=str(e)[:120])
         cols = [c for j in range(len(case["nodes"])) for c in (f"x{j}", f"v{j}")]
         vals = np.asarray(res[cols].values, dtype=np.float64)
         if case.get("support"):
             return dict(rows=[[float(v) for v in r] for r in vals])
+        return dict(rows=[[frac(v) for v in r] for r in vals])
+    finally:
+        pyr.reset_pyrates()
+
+COUPLING = {1: (["m = u_s - u_t"], {"u_s": "input", "u_t": "input", "m": "output"}),
+            2: (["m = u_s * u_t + u_s"], {"u_s": "input", "u_t": "input", "m": "output"})}
+
+def impl_pop(case):
+    import numpy as np, pyr
+    from pyr import frac
+    from pyrates import OperatorTemplate, NodeTemplate, CircuitTemplate
+    from pyrates.frontend.template.edge import EdgeTemplate
+    from pyrates.frontend.template.population import PopulationTemplate, Connectivity
+    pyr.reset_pyrates()
+    try:
+        uop = OperatorTemplate(name="uop", path=None, equations=["x' = eta - a*x + s_in"],
+                               variables={"x": "output(0.0)", "eta": 0.5, "a": 0.25, "s_in": "input(0.0)"})
+        node = NodeTemplate(name="unode", path=None, operators=[uop])
+        fl = lambda l: [float(Fr(v)) for v in l]
+        pops = {f"p{i}": PopulationTemplate(name=f"p{i}", node=node, n=len(p["x"]), params={"uop/x": fl(p["x"]), "uop/eta": fl(p["eta"]), "uop/a": fl(p["a"])})
+                for i, p in enumerate(case["pops"])}
+        conns = []
+        for c in case["conns"]:
+            kw = {}
+            if c["kind"]:
+                eqs, vs = COUPLING[c["kind"]]
+                kw["edge"] = EdgeTemplate(name=f"e{c['kind']}", path=None, operators=[OperatorTemplate(name=f"eop{c['kind']}", path=None, equations=list(eqs), variables=dict(vs))])
+                kw["edge_var_map"] = {"u_s": "source", "u_t": f"p{c['t']}/uop/x"}
+            conns.append(Connectivity(source=f"p{c['s']}/uop/x", target=f"p{c['t']}/uop/s_in", weights=np.array([fl(r) for r in c["W"]]), **kw))
+        net = CircuitTemplate(name="cpop", populations=pops, connections=conns)
+        dt = float(Fr(case["dt"]))
+        try:
+            res = net.run(case["steps"] * dt, dt, sampling_step_size=case["ss"] * dt, solver="euler", backend=case["backend"], vectorize=True,
+                          outputs={f"p{i}": f"p{i}/uop/x" for i in range(len(case["pops"]))}, float_precision="float64", in_place=False,
+                          file_name=_fname("p"), clear=True, verbose=False)
+        except TypeError as e:
+            return dict(raised="TypeError", msg=str(e)[:120])
+        cols = [(f"p{i}", k) for i, p in enumerate(case["pops"]) for k in range(len(p["x"]))]
+        vals = np.asarray(res[cols].values, dtype=np.float64)
         return dict(rows=[[frac(v) for v in r] for r in vals])
     finally:
         pyr.reset_pyrates()
@@ -289,7 +346,7 @@ def impl_hooks(case):
     return out
 
 def impl(case):
-    return {"interp": impl_interp, "net": impl_net, "traj": impl_traj, "hooks": impl_hooks}[case["kind"]](case)
+    return {"interp": impl_interp, "net": impl_net, "traj": impl_traj, "hooks": impl_hooks, "pop": impl_pop}[case["kind"]](case)
 
 # =============================================================================================== generators
 def dy(rng, lo, hi, den):
@@ -350,7 +407,9 @@ def frac_ok(rows):
 def lin_matrix(case):
     nn = len(case["nodes"]); M = [[Fr(0)] * (2 * nn) for _ in range(2 * nn)]
     for j, nd in enumerate(case["nodes"]):
-        M[2 * j][2 * j] -= Fr(nd["a"]); M[2 * j][2 * j + 1] += Fr(nd["g"]); M[2 * j + 1][2 * j] += Fr(nd["h"]); M[2 * j + 1][2 * j + 1] -= Fr(nd["c"])
+        M[2 * j][2 * j] -= Fr(nd["a"]); M[2 * j + 1][2 * j] += Fr(nd["h"]); M[2 * j + 1][2 * j + 1] -= Fr(nd["c"])
+        if nd.get("cls", 0) == 0:
+            M[2 * j][2 * j + 1] += Fr(nd["g"])
     for s, t, w in case["edges"]:
         M[2 * t][2 * s] += Fr(w)
     return M
@@ -395,6 +454,42 @@ def gen_lin_model(rng, with_input):
         if -(-case["steps"] // ss) >= 2 and all(frac_ok(py_traj(case, v)) for v in ("euler", "heun", "jheun")):
             return case          # (a run with ONE stored row and >= 2 outputs raises in run(): np.squeeze; not a backend matter)
 
+def gen_vec_model(rng, with_input, delay):
+    """two structural classes x 2-4 units; a dense block (-> matvec) and sparse extra edges (-> indexed assignment)"""
+    while True:
+        na, nb = rng.randint(2, 4), rng.randint(2, 4)
+        val = lambda lo, hi: str(Fr(rng.randint(lo, hi), 2))
+        nodes = [dict(cls=0 if j < na else 1, a=val(-1, 3), g=val(-2, 2), h=val(-2, 2), c=val(-1, 2), x=val(-4, 4), v=val(-4, 4)) for j in range(na + nb)]
+        A, B = list(range(na)), list(range(na, na + nb))
+        src, tgt = (A, B) if rng.random() < 0.5 else (B, A)
+        edges = [[s_, t_, str(Fr(rng.choice([-2, -1, 1, 2, 3]), 2))] for s_ in src for t_ in tgt]           # dense block
+        extra = [(s_, t_) for s_ in tgt for t_ in src] + [(s_, t_) for s_ in A for t_ in A] + [(s_, t_) for s_ in B for t_ in B]
+        rng.shuffle(extra)
+        edges += [[s_, t_, str(Fr(rng.choice([-3, -1, 1, 2]), 2))] for s_, t_ in extra[:rng.randint(1, 3)]]  # sparse
+        dt = Fr(1, rng.choice([2, 4])); ss = rng.choice([1, 1, 2]); steps = rng.choice([2, 3, 4]) * ss
+        u = [str(Fr(rng.randint(-4, 4), 2)) for _ in range(steps + ss + 2)] if with_input else []
+        case = dict(kind="traj", nodes=nodes, edges=edges, dt=str(dt), steps=steps, ss=ss, u=u)
+        if delay:
+            s_ = rng.choice(tgt); t_ = rng.choice(src)
+            case["delay"] = [s_, t_, str(Fr(rng.choice([-3, -1, 1, 3]), 2)), rng.choice([2, 3])]
+            case["steps"] = steps = 6 * ss
+        if all(frac_ok(py_traj(case, v)) for v in ("euler", "heun", "jheun")):
+            return case
+
+def gen_pop_model(rng):
+    val = lambda lo, hi, den=2: str(Fr(rng.randint(lo, hi), den))
+    sizes = [rng.randint(2, 4), rng.randint(2, 4)]
+    pops = [dict(x=[val(-4, 4) for _ in range(n)], eta=[val(-2, 2) for _ in range(n)], a=[val(-1, 3) for _ in range(n)]) for n in sizes]
+    mat = lambda nt, ns: [[str(Fr(rng.choice([-2, -1, 0, 0, 1, 2, 3]), 2)) for _ in range(ns)] for _ in range(nt)]
+    k = rng.choice([1, 2])
+    first = rng.randrange(2)
+    conns = [dict(s=first, t=1 - first, kind=0, W=mat(sizes[1 - first], sizes[first])),
+             dict(s=1 - first, t=first, kind=k, W=mat(sizes[first], sizes[1 - first]))]
+    if rng.random() < 0.3:
+        conns[0]["kind"] = rng.choice([1, 2])
+    ss = rng.choice([1, 1, 2])
+    return dict(kind="pop", pops=pops, conns=conns, dt=str(Fr(1, rng.choice([2, 4]))), steps=rng.choice([2, 3]) * ss, ss=ss)
+
 def gen_hooks(rng, backend):
     nv = rng.randint(1, 4)
     v = list(range(1, rng.randint(2, 7)))
@@ -437,6 +532,27 @@ def generate(ctx):
                     variants.append((True, False))          # returned-array convention needs vector-valued state variables
                 for vec, ipv in variants:
                     cases.append(dict(m, backend=b, solver=sv, vectorize=vec, ipv=ipv, precision="float64", mid=f"lin{i}"))
+    # vectorized circuits: two classes, dense + sparse edge groups; every other one with an extrinsic input
+    n_vec, n_vec_f = (6, 1) if q else (60, 6)
+    for i in range(n_vec):
+        m = gen_vec_model(rng, with_input=(i % 2 == 1), delay=False)
+        for b in PY_BACKENDS:
+            for sv in SOLVERS[b]:
+                cases.append(dict(m, backend=b, solver=sv, vectorize=True, ipv=(i % 3 != 2), precision="float64", mid=f"vec{i}"))
+        for b in ["default"] + (["fortran"] if i < n_vec_f else []):
+            cases.append(dict(m, backend=b, solver="euler", vectorize=False, ipv=True, precision="float64", mid=f"vec{i}"))
+    # roll-based delay buffer (no Spec here: the delay semantics is C09's subject; exact agreement across backends per vectorize setting;
+    # jax must refuse)
+    n_del, n_del_f = (3, 1) if q else (24, 4)
+    for i in range(n_del):
+        m = gen_vec_model(rng, with_input=False, delay=True)
+        for b, vec in [("default", True), ("torch", True), ("jax", True), ("default", False), ("torch", False)] + ([("fortran", False)] if i < n_del_f else []):
+            cases.append(dict(m, backend=b, solver="euler", vectorize=vec, ipv=True, precision="float64", mid=f"del{i}", nospec=True))
+    # population circuits: matvec + coupling template (wsum / broadcast helpers)
+    for i in range(5 if q else 50):
+        m = gen_pop_model(rng)
+        for b in PY_BACKENDS:
+            cases.append(dict(m, backend=b, mid=f"pop{i}"))
     # hooks
     for b in ["default", "torch", "jax", "fortran", "onebased"]:
         for _ in range(3 if q else 20):
@@ -457,6 +573,8 @@ def nontrivial(case):
         return any(g[0] < Fr(q) < g[-1] and Fr(q) not in g for q in case["queries"])
     if k == "net":
         return bool(case["edges"]) and any(sum(m[1:]) >= 2 for o in case["ops"].values() for m in o["px"] + o["pv"])
+    if k == "pop":
+        return any(c["kind"] for c in case["conns"])
     if k == "traj":
         return case["steps"] >= 2 and (case["backend"] != "default" or case["solver"] != "euler" or case["vectorize"])
     if k == "hooks":
@@ -489,6 +607,14 @@ Definition t_okS (e : backend * solver * linsys * Qc * nat * nat * row * list ro
   let '(b, sv, s, dt, steps, ss, y0, o) := e in rows_eqb (run_spec sv s dt steps ss y0) o.
 Definition t_guard (e : backend * solver * linsys * Qc * nat * nat * row * list row) :=
   let '(b, sv, s, dt, steps, ss, y0, o) := e in heun_time_free b sv s.
+(* populations *)
+Definition p_okI (e : backend * popsys * Qc * nat * nat * row * list row) :=
+  let '(b, s, dt, steps, ss, y0, o) := e in rows_eqb (pop_run_impl b s dt steps ss y0) o.
+Definition p_okS (e : backend * popsys * Qc * nat * nat * row * list row) :=
+  let '(b, s, dt, steps, ss, y0, o) := e in rows_eqb (pop_run_spec s dt steps ss y0) o.
+Definition p_guard (e : backend * popsys * Qc * nat * nat * row * list row) := let '(b, s, dt, steps, ss, y0, o) := e in torch_wsum_free b s.
+(* cross-backend agreement without a Spec (delay buffers) *)
+Definition x_ok (e : list row * list row) := rows_eqb (fst e) (snd e).
 (* hooks: (base, ints, rendered ints, ranges, rendered ranges, var values, calls, values after, roll v, k, observed, fortran shift) *)
 Definition natl_eqb (a b : list nat) := (length a =? length b) && forallb (fun p => fst p =? snd p) (combine a b).
 Definition zl_eqb (a b : list Z) := (length a =? length b) && forallb (fun p => Z.eqb (fst p) (snd p)) (combine a b).
@@ -543,6 +669,15 @@ def entries(case, out):
         for pt, o in zip(case["points"], out["outs"]):
             st = clist([f"({cq(x)}, {cq(v)})" for x, v in pt["state"]])
             es.append(("N", f"({cnet(case, pt['k'])}, {st}, {crow(o)})"))
+    elif k == "pop":
+        if "rows" in out:
+            sysm = (f"{{| psizes := {clist([str(len(p['x'])) for p in case['pops']])}; petas := {clist([crow(p['eta']) for p in case['pops']])}; "
+                    f"pavals := {clist([crow(p['a']) for p in case['pops']])}; pconns := " +
+                    clist([f"{{| csrc := {c['s']}; ctgt := {c['t']}; cW := {clist([crow(r) for r in c['W']])}; ckind := {c['kind']} |}}" for c in case["conns"]]) + " |}")
+            y0 = crow([v for p in case["pops"] for v in p["x"]])
+            es.append(("P", f"({BK[case['backend']]}, {sysm}, {cq(case['dt'])}, {case['steps']}, {case['ss']}, {y0}, {clist([crow(r) for r in out['rows']])})"))
+    elif k == "traj" and (case.get("nospec") or "rows" not in out):
+        pass
     elif k == "traj":
         y0 = crow([nd[kk] for nd in case["nodes"] for kk in ("x", "v")])
         sv = "Euler" if case["solver"] == "euler" else "Heun"
@@ -570,7 +705,7 @@ def entries(case, out):
 
 STREAMS = {  # stream -> (okI, okS, guard or None)
     "I": ("i_okI", "i_okS", "i_guard"), "R": ("r_okI", "r_okS", None), "N": ("n_ok", "n_ok", None),
-    "T": ("t_okI", "t_okS", "t_guard"), "H1": ("h_idx", "h_idx", None), "H2": ("h_rngI", "h_rngS", None),
+    "T": ("t_okI", "t_okS", "t_guard"), "P": ("p_okI", "p_okS", "p_guard"), "X": ("x_ok", "x_ok", None), "H1": ("h_idx", "h_idx", None), "H2": ("h_rngI", "h_rngS", None),
     "H3": ("h_var", "h_var", None), "H4": ("h_roll", "h_roll", None), "H5": ("h_shiftI", "h_shiftS", None)}
 
 def model_compare(ctx, cases, outs, tag):
@@ -579,6 +714,14 @@ def model_compare(ctx, cases, outs, tag):
     for ci, (c, o) in enumerate(zip(cases, outs)):
         for s, term in entries(c, o):
             per[s].append((ci, term))
+    groups = {}
+    for ci, (c, o) in enumerate(zip(cases, outs)):
+        if c["kind"] == "traj" and c.get("nospec") and "rows" in o:
+            groups.setdefault((c["mid"], c["vectorize"]), []).append(ci)
+    for grp in groups.values():
+        ref = grp[0]
+        for ci in grp[1:]:
+            per["X"].append((ci, f"({clist([crow(r) for r in outs[ref]['rows']])}, {clist([crow(r) for r in outs[ci]['rows']])})"))
     badI, badS, gfalse = set(), set(), set()
     shard = 150
     for s, lst in per.items():
@@ -665,7 +808,12 @@ def run_cases(ctx, cases, tag):
     for i, r in zip(order, res):
         outs[i] = r
     t1 = _t.time()
-    crashed = {i for i, r in enumerate(outs) if isinstance(r, dict) and "err" in r}
+    def expected_raise(c):
+        if c["kind"] == "traj" and c.get("delay") and c["backend"] == "jax":
+            return "NotImplementedError"           # SUPPORTS_EDGE_DELAY_BUFFER = False: jax refuses the ring-buffer path
+        return None
+    crashed = {i for i, r in enumerate(outs) if isinstance(r, dict) and ("err" in r or ("raised" in r and r["raised"] != expected_raise(cases[i])))}
+    crashed |= {i for i, r in enumerate(outs) if isinstance(r, dict) and "rows" in r and expected_raise(cases[i])}
     deciding = [i for i in range(len(cases)) if i not in crashed and not cases[i].get("support")]
     badI, badS, gfalse = model_compare(ctx, [cases[i] for i in deciding], [outs[i] for i in deciding], tag)
     badI = {deciding[i] for i in badI}; badS = {deciding[i] for i in badS}; gfalse = {deciding[i] for i in gfalse}
@@ -706,6 +854,9 @@ def check(ctx):
         cases = corpus + generate(ctx)
     outs, badI, badS, gfalse, crashed, notes = run_cases(ctx, cases, "main")
     guard_viol = {i: ["heun_time_free"] for i in gfalse if cases[i]["kind"] == "traj"}
+    for i, c in enumerate(cases):          # torch + coupling template: the model cannot be compiled at all (finding D40)
+        if c["kind"] == "pop" and c["backend"] == "torch" and any(k["kind"] for k in c["conns"]):
+            guard_viol[i] = ["torch_wsum_free"]
     kinds = {}
     for c in cases:
         key = c["kind"] + ("/support" if c.get("support") else "")
@@ -719,7 +870,7 @@ def check(ctx):
         w = [i for i, c in enumerate(cases) if c.get("finding") == f["id"]]
         if not w:
             return True
-        return any(i in badS for i in w)
+        return any(i in badS or i in crashed for i in w)
     def show(c):
         o = run_impl(ctx, "c02", "impl", [c], nworkers=1, per_case_timeout=240)[0]
         d = dict(implementation_output=o)
@@ -743,7 +894,9 @@ def check(ctx):
                    rule="a case is one (model, backend, option) run: interp case = dyadic grid (power-of-two spacings) x queries inside/outside/on "
                         "grid points x routes (direct helpers and the compiled vector field of a model with an extrinsic input on each backend); net = "
                         "random polynomial 2-4 node network at 4 dyadic points with k overridden by frontend name; traj = run() on a linear model; "
-                        "hooks = direct calls of the index/roll hooks. Non-trivial: interp with >= 1 query strictly inside an interval; net with >= 1 edge "
+                        "vectorized traj = two classes x 2-4 units, dense block + sparse edges, optional delayed edge (d = 2..3 steps, compared across backends per vectorize "
+                        "setting, jax must raise NotImplementedError); pop = two populations, one matvec connection and one coupling-template connection; "
+                        "hooks = direct calls of the index/roll hooks. Non-trivial: pop with a coupling template; interp with >= 1 query strictly inside an interval; net with >= 1 edge "
                         "and a monomial of degree >= 2; traj on a non-default backend / heun / vectorized; hooks on a 1-based backend or a non-identity roll. "
                         "distinct = distinct canonical JSON",
                    samples=[c for c in cases if c["kind"] == "traj"][:1] + [c for c in cases if c["kind"] == "interp"][:1],
@@ -755,5 +908,9 @@ def check(ctx):
                                  "transcendental functions, matmul and the adaptive solvers are outside the model (support stream with tolerance only)"],
                    assumptions=["grids strictly increasing with >= 2 points (hypothesis of C02_interp_torch_full)",
                                 "store_step >= 1; the number of stored rows ceil(steps/store_step) equals round(T/dts) (otherwise C03)",
-                                "guard heun_time_free: jax + heun agrees with the other backends only without time-dependent input (finding D16)",
+                                "guard heun_time_free (finding D16): textbook Heun evaluates the corrector at t+dt, which is what JaxBackend._solve_heun does (k2 = func(t+1, y_pred)); "
+                                "BaseBackend._solve_heun (default, fortran) evaluates both stages at t. The two agree exactly for autonomous systems (C02_heun_partial) and differ for "
+                                "time-dependent inputs; run_spec follows the default backend's convention only to have one reference - which backend deviates is a maintainer decision",
+                                "guard torch_wsum_free (finding D40): torch cannot compile a coupling EdgeTemplate; the stream demands exactly that TypeError there",
+                                "delayed edges: no Spec in this property (C09); only exact agreement default = torch (= fortran) per vectorize setting and the jax refusal are checked",
                                 "IEEE rounding is outside the model: the model computes in Qc"])
